@@ -119,6 +119,10 @@ def r3(run):
                 known = (rr == "ge" and k >= 1) or (rr == "gt" and k >= 0) or (rr == "ne" and k == 0) or (rr == "eq" and k >= 1)
                 if known:
                     edges += q.edge_triples(b, bb, lambda m, t=truth: m is t)
+        raw_n = b.operand_expr(st["rv"]["ops"][0])
+        narrowing = [y for y in walk(raw_n) if y[0] == "cast" and len(y) > 2 and y[2] == "IntToInt"]
+        run.ob("%s|head-n-uncast" % b.def_, not narrowing, st["sp"], "the N stored in TTL::Head is the value that was range-checked, not a narrowed copy of it (%d integer cast(s))" % len(narrowing),
+               reason="head-zero-constructible")
         run.ob("%s|head-n>=1" % b.def_, bool(edges) and q.dominated(b, bi, via_edges=edges), st["sp"],
                "TTL::Head(n) is constructed only on an edge where n >= 1 is known (head:0 unconstructible)", reason="head-zero-constructible")
     # both deserialisers go through that function
